@@ -188,6 +188,7 @@ class C12(runner.Check):
 	prop_id = "C12"
 	level = "exploration"
 	hang_s = 400
+	isolate_cases = True      # fimo keeps no state between calls; a mutant might
 	rule = ("One evaluation = one generated world (1-8 motifs of width 2-20 with Dirichlet / "
 		"near-one-hot / exact-zero / uniform columns; 1-6 sequences incl. shorter than, "
 		"equal to and one longer than a motif, N characters, lower case in FASTA; motif "
